@@ -62,7 +62,7 @@ struct factory
   std::size_t nwords = 0; // array_size
   virtual ~factory() = default;
   virtual std::unique_ptr<val> null() const = 0; // object::null()
-  virtual std::unique_ptr<val> il(std::vector<unsigned> const &) const = 0; // initializer-list constructor, <= 8 elements
+  virtual std::unique_ptr<val> il(std::vector<unsigned> const &) const = 0; // initializer-list constructor, <= 64 elements
   virtual std::unique_ptr<val> init(std::function<bool(unsigned)> const &) const = 0; // bitfield::init
   virtual std::unique_ptr<val> from_array(std::vector<ull> const &) const = 0; // object(array_type const &)
 };
